@@ -237,6 +237,8 @@ pub(crate) struct DBInner {
     pub(crate) data: Mutex<Arc<Mmap>>,
     pub(crate) mmap_lock: RwLock<()>,
     pub(crate) freelist: Mutex<Freelist>,
+    // id of the transaction whose commit produced `freelist` (protected by the freelist lock)
+    pub(crate) freelist_tx_id: std::sync::atomic::AtomicU64,
     pub(crate) file: Mutex<File>,
     pub(crate) open_ro_txs: Mutex<Vec<u64>>,
     pub(crate) flags: DBFlags,
@@ -253,6 +255,7 @@ impl DBInner {
             data: mmap,
             mmap_lock: RwLock::new(()),
             freelist: Mutex::new(Freelist::new()),
+            freelist_tx_id: std::sync::atomic::AtomicU64::new(0),
 
             file: Mutex::new(file),
             open_ro_txs: Mutex::new(Vec::new()),
@@ -269,6 +272,8 @@ impl DBInner {
             if !free_pages.is_empty() {
                 db.freelist.lock()?.init(free_pages);
             }
+            db.freelist_tx_id
+                .store(meta.tx_id, std::sync::atomic::Ordering::SeqCst);
         }
 
         Ok(db)
